@@ -127,6 +127,7 @@ contract(
         # C03 / C09: the insertion-order view handed to the TOLERANT encoders is exactly the children list, in order
         ('one_slot_per_child', 'len(result) == len(self.list)'),
         ('slot_is_the_child', 'all(tuple_first(result, k) is list_at(self.list, k) for k in range(len(self.list)))'),
+        ('slots_are_one_tuples', 'all(slot_len(result, k) == 1 and slot_at(result, k) is not None for k in range(len(self.list)))'),
         ('fresh_list', 'is_fresh(result)'),
     ],
     raises={}, raises_only=[],
@@ -152,3 +153,81 @@ contract('hl7apy.core:Element.encoding_chars[impl]', sig={'self': 'Element'}, re
                    'result is (global_("hl7apy:_DEFAULT_ENCODING_CHARS_27") if strlen(self.version) > 0 and self.version >= "2.7" '
                    'else global_("hl7apy:_DEFAULT_ENCODING_CHARS")))')],
          raises={}, raises_only=[], modifies=[], exact_self=True, properties=['C07', 'C17', 'C06'])
+
+# ---- Group._get_children (C08 / C03 / C01): what a group (and a message) hands to the encoder - the structure-order view
+# under STRICT, the insertion-order view otherwise; trailing empty slots are dropped unless asked for
+_ORD = 'self.element_ordered()'
+_G_STRICT = 'self.validation_level == 1'
+contract(
+    'hl7apy.core:Group._get_children',
+    sig={'self': 'Group', 'trailing': 'bool'},
+    returns='list[any]',
+    requires=['sep(self.children)', 'self.children.element is self'],
+    ensures=[
+        ('strict_is_structure_order',
+         'implies(%s, len(result) <= list_len(self.ordered_children) and '
+         'all(slot_at(result, k) is dget_ref(self.children.indexes, list_at_str(self.ordered_children, k)) for k in range(len(result))))' % _G_STRICT),
+        ('strict_keeps_all_with_trailing', 'implies(%s and trailing, len(result) == list_len(self.ordered_children))' % _G_STRICT),
+        ('strict_drops_only_empty_tail',
+         'implies(%s and not trailing, all(not nonempty(dget_ref(self.children.indexes, list_at_str(self.ordered_children, k))) '
+         'for k in range(len(result), list_len(self.ordered_children))))' % _G_STRICT),
+        ('tolerant_is_insertion_order',
+         'implies(not (%s), len(result) == len(self.children.list) and '
+         'all(tuple_first(result, k) is list_at(self.children.list, k) for k in range(len(self.children.list))))' % _G_STRICT),
+    ],
+    raises={}, raises_only=[],
+    modifies=[], allocates=['La.R', 'La.V', 'Ll'],
+    properties=['C08', 'C03', 'C01'],
+)
+
+# ---- Segment._get_children (C02): the position <-> name map of a segment on the encode side.  Slot k of what the encoder
+# iterates is the by-name index of the k-th field of the structure; for an open-ended segment the slots after the last
+# defined field are the by-name indexes of <SEG>_<last+1>, <SEG>_<last+2>, ... up to the highest field ever added; only
+# after those come the children without a structure name.  (With trailing=False the list is a prefix of this.)
+_NORD = 'list_len(self.ordered_children)'
+_EXTRA_AT = 'fmt("{}_{}", self.name, self._last_allowed_child_index + 1 + (k - %s))' % _NORD
+contract(
+    'hl7apy.core:Segment._get_children',
+    sig={'self': 'Segment', 'trailing': 'bool'},
+    returns='list[list[Element]?]',
+    requires=['sep(self.children)', 'self.children.element is self', 'self.ordered_children is not None', 'self.name is not None'],
+    ensures=[
+        ('defined_fields_by_position',
+         'all(implies(k < %s, slot_at(result, k) is dget_ref(self.children.indexes, list_at_str(self.ordered_children, k))) '
+         'for k in range(len(result)))' % _NORD),
+        ('extra_fields_by_number',
+         'implies(self.allow_infinite_children, '
+         'all(implies(k >= %s and k < %s + (self._last_child_index - self._last_allowed_child_index), '
+         'slot_at(result, k) is dget_ref(self.children.indexes, %s)) for k in range(len(result))))' % (_NORD, _NORD, _EXTRA_AT)),
+        ('nothing_lost_with_trailing',
+         'implies(trailing, len(result) >= %s + (max0(self._last_child_index - self._last_allowed_child_index) '
+         'if self.allow_infinite_children else 0))' % _NORD),
+    ],
+    raises={}, raises_only=[],
+    modifies=[], allocates=['La.R', 'La.V', 'Ll'],
+    loops={0: {'header': 'for i in xrange(self._last_allowed_child_index + 1, self._last_child_index + 1)',
+               'inv': [('length', 'len(children) == %s + _i' % _NORD),
+                       ('defined', 'all(slot_at(children, k) is dget_ref(self.children.indexes, list_at_str(self.ordered_children, k)) '
+                                   'for k in range(%s))' % _NORD),
+                       ('extra', 'all(implies(k >= %s, slot_at(children, k) is dget_ref(self.children.indexes, %s)) '
+                                 'for k in range(%s + _i))' % (_NORD, _EXTRA_AT, _NORD))],
+               'modifies': ['children[]']}},
+    properties=['C02', 'C01'],
+)
+
+# ---- Element._get_children (components of a field, subcomponents of a component: C02 for datatype positions)
+contract(
+    'hl7apy.core:Element._get_children',
+    sig={'self': 'Element', 'trailing': 'bool'},
+    returns='list[list[Element]?]',
+    requires=['sep(self.children)', 'self.children.element is self', 'self.ordered_children is not None'],
+    ensures=[
+        ('defined_children_by_position',
+         'all(implies(k < %s, slot_at(result, k) is dget_ref(self.children.indexes, list_at_str(self.ordered_children, k))) '
+         'for k in range(len(result)))' % _NORD),
+        ('nothing_lost_with_trailing', 'implies(trailing, len(result) >= %s)' % _NORD),
+    ],
+    raises={}, raises_only=[],
+    modifies=[], allocates=['La.R', 'La.V', 'Ll'],
+    properties=['C02', 'C01'],
+)
